@@ -69,6 +69,20 @@ func main() {
 			os.Exit(driver.Replay(prop, *replay))
 		}
 		os.Exit(driver.Check(prop, t, *cases, *jobs))
+	case "caseidx":
+		// vrun caseidx <prop> <case seed hex> : which case index has this seed (for VERIF_SEED, default 1)
+		want, _ := strconv.ParseUint(strings.TrimPrefix(os.Args[3], "0x"), 16, 64)
+		vs := uint64(1)
+		if v, err := strconv.ParseUint(os.Getenv("VERIF_SEED"), 10, 64); err == nil {
+			vs = v
+		}
+		for i := 0; i < 100000; i++ {
+			if driver.CaseSeed(vs, os.Args[2], i) == want {
+				fmt.Println(i)
+				return
+			}
+		}
+		fmt.Println("not found")
 	case "debugcase":
 		// vrun debugcase <prop> <from> <to> : run cases in-process and print every violation of every property
 		prop := os.Args[2]
